@@ -495,7 +495,10 @@ class C19(World):
                     for j, m in enumerate(models):
                         if any(si == i for _, si in m):
                             dep = sort_attrs(cmeta[j])
-                            derived = {"t_supply": {"t_supply", "t_min", "t_max", "t_min_star", "t_max_star", "CP", "t_target"}, "t_target": {"t_target", "t_min", "t_max", "t_min_star", "t_max_star", "CP"}, "heat_flow": {"heat_flow", "CP", "t_target", "t_min", "t_max", "t_min_star", "t_max_star"}, "dt_cont": {"dt_cont", "t_min_star", "t_max_star"}, "htc": {"htc"}}[attr]
+                            # a property setter recomputes EVERY derived attribute from scratch (which matters when the stream was
+                            # in, or leaves, the zero-span/zero-duty state: a dt_cont assignment can then change CP and t_target);
+                            # set_heat_flow writes the duty and CP only
+                            derived = ({attr, "t_target", "t_min", "t_max", "t_min_star", "t_max_star", "CP"} if op == "set" else {"heat_flow", "CP"})
                             if dep & derived:
                                 cmeta[j]["stale"] = True
                                 probe("member_mutated_after_insertion")
